@@ -214,3 +214,38 @@ Print Assumptions c04_worker_can_move.
 Print Assumptions c04_never_stranded.
 Print Assumptions c04_pool_not_stuck.
 Print Assumptions c04_writer_can_move.
+
+(* ------------------------------------------------------------------------------------------
+   End to end (Model/EndToEnd.v = Classify ; MetaHandlers ; Envelope): from the BYTES of a request
+   line received by an initialized Metadata server to the adapter calls made and the BYTES written
+   for it, for every well-formed encoded request of the 14 methods, every request id, either
+   terminator and every script of adapter outcomes. *)
+From LS Require Import Model.Envelope Model.Classify Model.EndToEnd Proofs.EndToEndProofs.
+
+Theorem c04_end_to_end : forall id m q term outs,
+  wf_id id = true -> post_init_meta m = true -> shape_ok m q = true -> ints_ok q ->
+  forallb is_space term = true ->
+  answer_meta (encode_line id m q term) outs =
+    (firstn (n_calls (expected q) outs) (spec_calls (expected q)),
+     match first_raise outs (length (spec_calls (expected q))) with
+     | None => lift_result id (spec_data_reply m (expected q) outs)
+     | Some (_, e) => lift_result id (error_reply m e)
+     end).
+Proof. exact answer_meta_encoded. Qed.
+
+(* a written line is "<request id>|<reply text>" CRLF, and the id comes off as the first token *)
+Theorem c04_reply_carries_id : forall id body,
+  ~ In c_pipe id ->
+  lift_result id (WOk body) = AnsWire (reply_message id body ++ [c_cr; c_lf]) /\
+  open_envelope (reply_message id body) = Some (id, split_on c_pipe body).
+Proof. exact answer_wire_opens. Qed.
+
+(* nothing but a well-formed request of a known method reaches the adapter *)
+Theorem c04_no_call_otherwise : forall line outs,
+  (forall id, classify KMeta line <> CReq id true true) ->
+  fst (answer_meta line outs) = [].
+Proof. exact answer_meta_no_call. Qed.
+
+Print Assumptions c04_end_to_end.
+Print Assumptions c04_reply_carries_id.
+Print Assumptions c04_no_call_otherwise.
